@@ -1020,6 +1020,39 @@ func (f *Frame) havocLoc(e *CExpr, env *Env, post *State) {
 				pre := "F$" + typeKey(n) + "$" + sel.Name
 				f.havocKeysWithPrefix(n, sel.Name, pre, post)
 				return
+			case "held":
+				mu := f.evalC(e.Args[0], env)
+				if mu.K != VAddr {
+					f.E.fail("held() in modifies needs a mutex field")
+				}
+				key := "held$" + mu.Addr.Key + mu.Addr.Path
+				hs := ArrayS(IntS, BoolS)
+				cur := post.Get(key, hs)
+				f.E.noteVars(cur)
+				post.Set(key, hs, f.E.name(Store(cur, mu.Addr.Obj, f.fresh("hv$held", BoolS)), f.prefix+"hv$"+key))
+				return
+			case "guarded":
+				mu := f.evalC(e.Args[0], env)
+				if mu.K != VAddr {
+					f.E.fail("guarded() in modifies needs a mutex field")
+				}
+				n := f.E.P.Named[strings.TrimPrefix(mu.Addr.Key, "F$")]
+				if n == nil {
+					f.E.fail("guarded(): unknown owner type %s", mu.Addr.Key)
+				}
+				m := map[string]*Sort{}
+				f.E.guardedKeys(n, strings.TrimPrefix(mu.Addr.Path, "$"), m)
+				for _, k := range sortedKeys(m) {
+					srt := m[k]
+					cur := post.Get(k, srt)
+					f.E.noteVars(cur)
+					if strings.HasPrefix(k, "F$"+typeKey(n)+"$") {
+						post.Set(k, srt, f.E.name(Store(cur, mu.Addr.Obj, f.fresh("hv$"+k, srt.Elem)), f.prefix+"hv$"+k))
+					} else {
+						post.Set(k, srt, f.fresh("hv$"+k, srt))
+					}
+				}
+				return
 			case "elems":
 				v := f.evalC(e.Args[0], env)
 				if v.K != VSlice {
@@ -1317,6 +1350,20 @@ func (e *Enc) contractModKeys(fc *FuncContract, callee *ssa.Function, m map[stri
 						e.addFieldKeys(m, n, sel.Name)
 					}
 					continue
+				case "held", "guarded":
+					sel := ex.Args[0]
+					if sel.K == "sel" {
+						if t := e.staticTypeOfCExpr(sel.A, callee); t != nil {
+							if n := namedStructOf(t); n != nil {
+								if ex.A.Name == "held" {
+									m["held$F$"+typeKey(n)+"$"+sel.Name] = ArrayS(IntS, BoolS)
+								} else {
+									e.guardedKeys(n, sel.Name, m)
+								}
+								continue
+							}
+						}
+					}
 				}
 			}
 		case "sel":
@@ -1476,3 +1523,112 @@ func (f *Frame) localStoreKeys(v ssa.Value, m map[string]*Sort) {
 }
 
 var _ = token.NoPos
+
+// ---------------------------------------------------------------- precise loop havoc
+//
+// A heap key written in a loop only through Stores whose object is a value
+// defined outside the loop (or an object allocated inside the loop) changes
+// only at those objects; the rest of the array is kept across the loop header.
+
+type preciseKey struct {
+	objs  []ssa.Value
+	fresh bool
+}
+
+func (f *Frame) loopPreciseKeys(li *loopInfo) map[string]*preciseKey {
+	res := map[string]*preciseKey{}
+	bad := map[string]bool{}
+	inLoop := func(v ssa.Value) bool {
+		if in, ok := v.(ssa.Instruction); ok {
+			if b := in.Block(); b != nil {
+				return li.blocks[b.Index]
+			}
+		}
+		return false
+	}
+	for _, b := range f.Fn.Blocks {
+		if !li.blocks[b.Index] {
+			continue
+		}
+		for _, in := range b.Instrs {
+			tmp := map[string]*Sort{}
+			f.E.instrModKeys(in, tmp, true)
+			if len(tmp) == 0 {
+				continue
+			}
+			switch x := in.(type) {
+			case *ssa.Store:
+				root := x.Addr
+				for {
+					if fa, ok := root.(*ssa.FieldAddr); ok {
+						root = fa.X
+						continue
+					}
+					break
+				}
+				var cls string
+				if a, ok := root.(*ssa.Alloc); ok && inLoop(a) {
+					if _, isStruct := a.Type().(*types.Pointer).Elem().Underlying().(*types.Struct); isStruct {
+						cls = "fresh"
+					}
+				} else if !inLoop(root) {
+					if pt, ok := root.Type().Underlying().(*types.Pointer); ok {
+						if _, isStruct := pt.Elem().Underlying().(*types.Struct); isStruct {
+							cls = "obj"
+						}
+					}
+				}
+				for k := range tmp {
+					if !strings.HasPrefix(k, "F$") || cls == "" {
+						bad[k] = true
+						continue
+					}
+					pk := res[k]
+					if pk == nil {
+						pk = &preciseKey{}
+						res[k] = pk
+					}
+					if cls == "fresh" {
+						pk.fresh = true
+					} else {
+						dup := false
+						for _, o := range pk.objs {
+							if o == root {
+								dup = true
+							}
+						}
+						if !dup {
+							pk.objs = append(pk.objs, root)
+						}
+					}
+				}
+			case *ssa.Alloc:
+				for k := range tmp {
+					if k == allocKey {
+						continue
+					}
+					if strings.HasPrefix(k, "F$") {
+						pk := res[k]
+						if pk == nil {
+							pk = &preciseKey{}
+							res[k] = pk
+						}
+						pk.fresh = true
+					} else {
+						bad[k] = true
+					}
+				}
+			default:
+				for k := range tmp {
+					if k != allocKey {
+						bad[k] = true
+					}
+				}
+			}
+		}
+	}
+	for k := range bad {
+		delete(res, k)
+	}
+	return res
+}
